@@ -5,11 +5,14 @@ From Coq Require Import String.
 From KS Require Import lib.Base lib.Strings model.MetaStore gen.McpCalls proofs.MetaStoreProofs proofs.MetaStoreMcp.
 Open Scope Z_scope.
 
-(* (1) finite, over the regenerated table: every store method reachable from any
-       registered tool handler is one of the read-only methods *)
+(* (1) finite, over the regenerated tables: every store method reachable from any registered
+       tool handler is one of the read-only methods, AND no state-writing action (etcd client
+       Put / Delete / Txn, the store's write lock, a write to a store field) is reachable from
+       the bodies of EtcdStore.<M> / InMemoryStore.<M> for any such method M *)
 Theorem C40_calls_readonly :
-  forallb (fun e => forallb readonly_method (snd e)) mcp_calls = true.
-Proof. exact mcp_calls_readonly. Qed.
+  forallb (fun e => forallb readonly_method (snd e)) mcp_calls = true /\
+  forallb (fun e => forallb writes_known_empty (snd e)) mcp_calls = true.
+Proof. exact (conj mcp_calls_readonly mcp_reachable_no_writes). Qed.
 Print Assumptions C40_calls_readonly.
 
 (* (2) a read-only method leaves the store state as it is, in both store models,
@@ -37,6 +40,7 @@ Print Assumptions C40_tools_preserve_state.
    that is allowed, and a mutating method is not allowed for any tool *)
 Example C40_nonvacuous :
   negb (Nat.eqb (length mcp_calls) 0) = true /\
+  writes_known_empty M_FetchTopicConfig = true /\ writes_known_empty M_UpdateTopicConfig = false /\
   tool_allowed (lit "fetch_offsets") M_Metadata = true /\
   tool_allowed (lit "fetch_offsets") M_FetchConsumerOffset = true /\
   forallb (fun e => negb (tool_allowed (fst e) M_DeleteTopic) && negb (tool_allowed (fst e) M_CommitConsumerOffset)) mcp_calls = true /\
